@@ -28,7 +28,8 @@ META = {
                     'each history entry equals the recomputed ||b - A x||, callback arguments equal the iterates: numeric '
                     'comparison with the harness recomputation (the theorems say WHICH iterate each entry / argument belongs to)',
                     'what a cycle computes (V/W/F recursion, smoothers, cycles_per_level) is outside C01: cycles enter the '
-                    'theorems as arbitrary functions'],
+                    'theorems as arbitrary functions (the E17 theorems solvePy_on_cycM_* / solvePy_on_kernel_cycle_* only compose the '
+                    'loop with the cycle models of C03 / C02)'],
     'partial': [],
     'assumptions': ['rounding: a residual norm reported by the code is accepted when it is within 1e-12 relative + 64 eps '
                     '(||b|| + || |A| |x| ||) of the harness recomputation; a status decision inside that band is taken in exact '
